@@ -776,7 +776,7 @@ Definition impl (e : expr) (s : str) (loc : nat) (d : bool) (k : impl_res + (nat
     | EPrecededBy exact retreat =>
       if exact then
         if Nat.ltb loc retreat then fail (mkx XParse (Z.of_nat loc) (MNode (nid a) 0) (Some (nid a)))
-        else call c s (loc - retreat) true true (fun o =>      (* F-13: do_actions defaults to True here *)
+        else call c s (loc - retreat) d true (fun o =>
                match o with Ok _ r => k (inr (loc, RPR r)) | _ => failo o end)
       else fail (mkx XOther 0%Z MEmpty None)              (* non-exact look-behind: not modelled *)
     end
